@@ -111,10 +111,14 @@ class ArrP:
 
 
 class TBP:
-    __slots__ = ('_blocks', '_index', '_dtypes', '_shape', '_row_dtype')
+    __slots__ = ('_blocks', '_index', '_dtypes', '_shape', '_row_dtype', '_offs')
 
     def __init__(self, tb, inputs=()):
         self._blocks = [ArrP(b, inputs) for b in tb._blocks]
+        offs = [0]
+        for b in tb._blocks:
+            offs.append(offs[-1] + (1 if b.ndim == 1 else b.shape[1]))
+        self._offs = offs          # ghost prefix offsets, recomputed from the real blocks
         self._index = list(tb._index)
         self._dtypes = list(tb._dtypes)
         self._shape = tuple(tb._shape)
